@@ -167,7 +167,7 @@ def initFromCfg (rest : List String) : Option St :=
   let meth := match get "method" with
     | "epoll-timerfd" => some Method.epollTimerfd | "epoll" => some Method.epoll
     | "ppoll" => some Method.ppoll | "poll" => some Method.poll | _ => none
-  meth.map fun meth => St.init meth 64 (get "timerfd" == "1") true
+  meth.map fun meth => St.init meth 1024 (get "timerfd" == "1") true
 
 def step (s : S) (ws : List String) : S × List String :=
   let s := { s with line := s.line + 1 }
